@@ -55,6 +55,7 @@ type SMT struct {
 	timeoutQ int
 	timeoutT int
 	recFns   map[string]*SpecFn
+	inflight map[string]chan struct{}
 }
 
 type condChunk struct {
@@ -244,13 +245,32 @@ func runSolver(sv Solver, file string, timeoutS int) (status, out string, secs f
 
 func (s *SMT) solve(query string, name string) *SolveResult {
 	h := fmt.Sprintf("%x", sha1.Sum([]byte(query)))
-	s.mu.Lock()
-	if r, ok := s.cache[h]; ok {
+	for {
+		s.mu.Lock()
+		if r, ok := s.cache[h]; ok {
+			s.mu.Unlock()
+			cp := *r
+			return &cp
+		}
+		if ch, busy := s.inflight[h]; busy {
+			s.mu.Unlock()
+			<-ch // another worker is solving the identical query
+			continue
+		}
+		if s.inflight == nil {
+			s.inflight = map[string]chan struct{}{}
+		}
+		done := make(chan struct{})
+		s.inflight[h] = done
 		s.mu.Unlock()
-		cp := *r
-		return &cp
+		defer func() {
+			s.mu.Lock()
+			delete(s.inflight, h)
+			s.mu.Unlock()
+			close(done)
+		}()
+		break
 	}
-	s.mu.Unlock()
 	file := filepath.Join(s.dir, h[:16]+".smt2")
 	os.WriteFile(file, []byte(query), 0o644)
 	res := &SolveResult{Status: "unknown", QueryLen: len(query), File: file}
@@ -295,8 +315,20 @@ func (s *SMT) solve(query string, name string) *SolveResult {
 		// quick: z3 5.1 first, then the other two raced
 		st, out, secs := runSolver(solvers[0], file, 8)
 		res.Seconds += secs
+		if st == "error" {
+			// a rejected query is retried on the other back ends before it is reported
+			st2, out2, secs2 := runSolver(solvers[1], file, s.timeoutQ)
+			res.Seconds += secs2
+			if st2 == "sat" || st2 == "unsat" {
+				st, out = st2, out2
+				res.Backend = solvers[1].Name
+			}
+		}
 		if st != "unknown" {
-			res.Status, res.Backend, res.Raw = st, solvers[0].Name, out
+			if res.Backend == "" {
+				res.Backend = solvers[0].Name
+			}
+			res.Status, res.Raw = st, out
 		} else {
 			type ans struct {
 				name, status, out string
